@@ -84,6 +84,13 @@ Lemma bind_unfold {A B} (c : M A) (k : A -> M B) w :
   end.
 Proof. reflexivity. Qed.
 
+Ltac stlia :=
+  unfold ST_DISC_WCONN, ST_DISC_BROKEN, ST_NCE, ST_LOGON_SENT, ST_LOGON_RECV, ST_HANDLING, ST_TOO_HIGH,
+    ST_AWAITING, ST_ACTIVE, ROLE_INITIATOR, ROLE_ACCEPTOR in *; lia.
+
+Ltac msimp :=
+  repeat first [rewrite bind_unfold | progress cbn [ret raise emit getw modw lift try_ rv rw re app snd fst]].
+
 (* ------------------------------------------------------------------ pres: preserved projections *)
 
 Definition pres {X A} (f : world -> X) (c : M A) : Prop := forall w, f (rw (c w)) = f w.
@@ -430,19 +437,26 @@ Section Footprints.
     pres_tac; auto.
   Qed.
 
+  Lemma finalize_tail_pres m now r :
+    ins_all f [FSt; FWasact; FMaxres; FLastt; FJsin; FJin] -> pres f (finalize_tail m now r).
+  Proof.
+    intros H. cbn in H. destruct H as [H2 [H3 [H4 [H5 [H6 [H7 _]]]]]].
+    assert (Hs : forall s, pres f (state_set s)) by (intros; apply state_set_pres; ins_auto).
+    unfold finalize_tail. pres_step; [pres_tac|].
+    pres_step.
+    { destruct (st a =? ST_AWAITING); [|pres_tac]. destruct (negb _); [pres_tac|].
+      destruct (maxres a <=? r); [|pres_tac]. pres_step; [|auto].
+      apply pres_modw. intros w. apply H4. }
+    pres_step. { apply pres_modw. intros w. apply H5. }
+    apply persist_in_pres. ins_auto.
+  Qed.
+
   Lemma finalize_pres m now :
     ins_all f [FNin; FSt; FWasact; FMaxres; FLastt; FJsin; FJin] -> pres f (finalize m now).
   Proof.
     intros H. cbn in H. destruct H as [H1 [H2 [H3 [H4 [H5 [H6 [H7 _]]]]]]].
-    assert (Hs : forall s, pres f (state_set s)) by (intros; apply state_set_pres; ins_auto).
     unfold finalize. pres_step; [apply set_next_num_in_pres; ins_auto|].
-    destruct (a <=? 0); [pres_tac|]. pres_step; [pres_tac|].
-    pres_step.
-    { destruct (st a0 =? ST_AWAITING); [|pres_tac]. destruct (negb _); [pres_tac|].
-      destruct (maxres a0 <=? a); [|pres_tac]. pres_step; [|auto].
-      apply pres_modw. intros w. apply H4. }
-    pres_step. { apply pres_modw. intros w. apply H5. }
-    apply persist_in_pres. ins_auto.
+    destruct (a <=? 0); [pres_tac|]. apply finalize_tail_pres. ins_auto.
   Qed.
 
   Lemma dispatch_pres m valid :
@@ -655,12 +669,19 @@ Section Events.
   Lemma set_next_num_in_allev m : allev P (set_next_num_in m).
   Proof. unfold set_next_num_in. allev_tac. Qed.
 
-  Lemma finalize_allev m now : P (State ST_ACTIVE) -> allev P (finalize m now).
+  Lemma finalize_tail_allev m now r : P (State ST_ACTIVE) -> allev P (finalize_tail m now r).
   Proof.
     intros H.
     assert (Ha : allev P (state_set ST_ACTIVE)) by (apply state_set_allev; auto).
-    assert (Hn : allev P (set_next_num_in m)) by apply set_next_num_in_allev.
     assert (Hp : allev P (persist_in m)) by apply persist_in_allev.
+    unfold finalize_tail. allev_tac; auto.
+  Qed.
+
+  Lemma finalize_allev m now : P (State ST_ACTIVE) -> allev P (finalize m now).
+  Proof.
+    intros H.
+    assert (Hn : allev P (set_next_num_in m)) by apply set_next_num_in_allev.
+    assert (Ht : forall r, allev P (finalize_tail m now r)) by (intros; apply finalize_tail_allev; auto).
     unfold finalize. allev_tac; auto.
   Qed.
 End Events.
